@@ -4,8 +4,9 @@ import "fmt"
 
 // C06 (partial, bounded system level) — liveness under fair gossip.  Four real
 // cores.  Adversarial prefix: 20 pull exchanges among all four, each puller
-// submitting a transaction, in which any 1 (thorough: 2) of the exchanges 2..13 is dropped or
-// truncated (symbolic schedule bits) and validator 3 falls silent at a chosen
+// submitting a transaction, in which any 1 (thorough: 2) of the exchanges 2..13 is dropped,
+// truncated, or overlaps the node's previous sync (stale request: the answer
+// repeats events) — symbolic schedule bits — and validator 3 falls silent at a chosen
 // moment (never / from exchange 8 on / from the start).  Then a FAIR phase: a
 // fixed number of all-pairs cycles among the live validators (more than two
 // thirds), without new submissions.  At the end every live node has committed
@@ -15,6 +16,7 @@ func VerifHarness_C06_O1() {
 	s := verifNewSys(4)
 	silentFrom := []int{1 << 30, 8, 0}[verifChoice("validator3SilentFrom", 3)]
 	perturbed := 0
+	prevKnown := make([]map[uint32]int, 4)
 	budget := 1
 	if verifTier() > 0 {
 		budget = 2
@@ -26,6 +28,7 @@ func VerifHarness_C06_O1() {
 			continue
 		}
 		limit := -1
+		var stale map[uint32]int
 		if perturbed < budget && st >= 2 && st < 14 {
 			if verifNondetBool(fmt.Sprintf("drop%d", st)) {
 				perturbed++
@@ -34,11 +37,20 @@ func VerifHarness_C06_O1() {
 			if verifNondetBool(fmt.Sprintf("truncate%d", st)) {
 				perturbed++
 				limit = 1
+			} else if prevKnown[to] != nil && verifNondetBool(fmt.Sprintf("overlap%d", st)) {
+				// this request was sent before the node's previous sync was answered
+				perturbed++
+				stale = prevKnown[to]
 			}
 		}
-		if err := s.pull(from, to, limit); err != nil {
-			panic(fmt.Sprintf("prefix step %d: %v", st, err))
+		kn := map[uint32]int{}
+		for id, v := range s.nodes[to].c.knownEvents() {
+			kn[id] = v
 		}
+		// an overlapping answer repeats events; the node reports the (normal)
+		// error for those and carries on, as Node.sync does
+		_ = s.pullKnown(from, to, limit, true, stale)
+		prevKnown[to] = kn
 	}
 	live := []int{0, 1, 2, 3}
 	if silentFrom < 1<<30 {
